@@ -54,3 +54,22 @@ def c14_determinism(run, mod):
         run.broken.append({"what": "source lint: a std hash map or heap is iterated (output may depend on the hash seed)", "detail": out[-600:]})
     shutil.rmtree(base, ignore_errors=True)
     run.coverage["determinism_processes"] = 3
+
+
+def c04_deep(run, mod):
+    """deeply nested (legal) input is accepted: nesting may consume stack but is not limited by the grammar"""
+    for depth in (1500, 6000):
+        try:
+            r = subprocess.run([os.path.join(mod.BIN, "stack"), "deep", str(depth)], stdout=subprocess.PIPE, stderr=subprocess.PIPE, text=True, timeout=300, env=mod.ENV)
+            rc, out, err = r.returncode, r.stdout, r.stderr
+        except subprocess.TimeoutExpired:
+            rc, out, err = 124, "", "timeout"
+        row = None
+        for line in out.splitlines():
+            if line.startswith("{"):
+                try: row = json.loads(line)
+                except Exception: pass
+        ok = rc == 0 and row is not None and row.get("ok") and row.get("atoms") == depth + 1
+        run.obligations.append({"name": "branches nested %d deep are read, built and traversed" % depth, "kind": "run of the implementation in a child process", "discharged": bool(ok)})
+        if not ok:
+            run.failing.append({"check": run.pid + ".deep_nesting", "input": "C + (C * %d + ) * %d" % (depth, depth), "observed": row, "rc": rc, "why": err[-200:]})
